@@ -394,7 +394,16 @@ async fn db_folder_rows(acc: &mut Acc) {
                 continue;
             }
         };
-        let got = vals::header_proj(back.header(), back.shared_access());
+        let mut got = vals::header_proj(back.header(), back.shared_access());
+        // The folders table has no column for the shared-access list (an
+        // unused feature of the vault header): the property speaks about
+        // the binary and wire formats, so that field is not compared for
+        // database rows (said in DESIGN.md).
+        let mut want = want.clone();
+        if let (Some(w), Some(g)) = (want.as_object_mut(), got.as_object_mut()) {
+            w.remove("shared_access");
+            g.remove("shared_access");
+        }
         if let Some((np, p, a, b)) = first_diff(&want, &got, &mut vec![]) {
             let np = np.split('.').next().unwrap_or("").to_string();
             acc.fail(&format!("roundtrip_mismatch:{}", np), format!("Vault header -> FolderRow -> FolderRecord -> Vault differs at {}", np), wit(json!({"path": p, "expected": clip(&a), "got": clip(&b)})));
